@@ -1,9 +1,33 @@
 import RedisGoModel.Props.C08ReadySave
 import RedisGoModel.Generated.ReadyArm
-/-! # C08 — persist before externalise, as a theorem about the loop model `Cluster/ReadyLoop.lean`
+/-! # C08 — persist before externalise, on the loop model `Cluster/ReadyLoop.lean` (used by C07 / C15)
 
-STATEMENTS (proofs below).
--/
+`Safe s`: whatever prefix of the unsynced WAL tail survives a crash now, `replayWAL` succeeds and what it reconstructs keeps every promise
+made to the outside and not taken back by raft (`Promise`: term of every message sent; vote granted / own candidacy; every entry at or below
+an acknowledged append index and every entry handed to the commit channel; the acknowledged index reached; the snapshot acknowledged /
+handed to the state machine).  `PersistBeforeExternalise c`: `Safe` in every state reachable under etcd's contract (`Conforms`, `ReadyOk`)
+with crashes anywhere.
+
+PROVED
+* tie: `arm_is_source_arm` (the model's arm = the calls go/ast extracts from serveChannels on every run), `armOrder_eq`.
+* negative (kernel-evaluated runs): `send_before_save_violates` / `persistBeforeExternalise_false_send_first` (Send moved before wal.Save),
+  `missing_snapshot_sync_violates` / `missing_snapshot_sync_restart` / `persistBeforeExternalise_false_without_sync` (the arm before e044e73),
+  `snapshot_with_entries_strands` (FINDING on the model: a Ready with a snapshot AND entries, `wal.Save` torn between the entry and the hard
+  state, leaves a WAL `replayWAL` cannot open; excluded by `ReadyOk`).
+* positive, for every state and every Ready: `quiet_stmt_safe` (12 of the 16 statements keep `Safe` unconditionally), `snapshot_never_loses`
+  (maybeTriggerSnapshot with a crash between any two of its steps), `take_safe`, `crash_restart_safe` (crash + restart keep `Safe`, the node
+  starts, its view is the one `Safe` spoke of), `restart_no_regress` (what `Safe` gives about term, vote, log end, entries, snapshot);
+  `walWrite_safe` (from `save_keeps_promises`, Props/C08ReadySave.lean: `wal.Save` torn after ANY record keeps every promise not taken
+  back, given entries consecutive / above the on-disk snapshot / at most one past the on-disk log end and a hard state that does not go
+  back); `externalise_safe` (send / publishEntries / publishSnapshot keep `Safe` iff the new promises hold in every crash image);
+  Props/C08ReadyDisk.lean `promise_survives_growth`, `promise_survives_entry` ("at every later moment", record by record).
+* non-vacuity: `snapshot_run_safe_now`, `long_run_safe_now` (conforming runs through the arm as it is — leader snapshot; own snapshot
+  interrupted by a crash, torn wal.Save, overwritten tail — are `Safe` after every event).
+
+NOT PROVED (hence no theorem named `persist_before_externalise`): `PersistBeforeExternalise {}` itself.  What is missing is the glue
+invariant between the volatile node and the disk (the full crash image has raft's hard state and covers the in-memory log; outside the
+wal.Save window every image does) that discharges the hypotheses of `walWrite_safe` and `externalise_safe` from `ReadyOk` along a run.
+The statement is evaluated on concrete runs here and on the real loop by the `readyloop` engine. -/
 namespace ReadyLoop
 namespace C08Ready
 
